@@ -22,7 +22,19 @@ OPS = {
     z3.Z3_OP_BUREM: "urem", z3.Z3_OP_BUREM_I: "urem",
     z3.Z3_OP_BSREM: "srem", z3.Z3_OP_BSREM_I: "srem",
 }
+PREDS = {z3.Z3_OP_BSMUL_NO_OVFL: "smul_noovfl",
+         z3.Z3_OP_BSMUL_NO_UDFL: "smul_noudfl",
+         z3.Z3_OP_BUMUL_NO_OVFL: "umul_noovfl"}
 _UF = {}
+_UP = {}
+
+
+def upred(name, w):
+    k = (name, w)
+    if k not in _UP:
+        _UP[k] = Function(f"{name}{w}", BitVecSort(w), BitVecSort(w),
+                          z3.BoolSort())
+    return _UP[k]
 
 
 def uf(name, w):
@@ -37,6 +49,7 @@ def abstract(formulas):
     """-> (abstracted formulas, axioms)"""
     memo = {}
     apps = {}     # (name, w) -> list of (a, b, term)
+    napp_pred = [0]
 
     def mk(name, a, b):
         w = a.size()
@@ -65,6 +78,12 @@ def abstract(formulas):
                     r = kids[0]
                     for c in kids[1:]:
                         r = r * c
+            elif k in PREDS and not (z3.is_bv_value(kids[0])
+                                     or z3.is_bv_value(kids[1])):
+                # multiplication overflow predicates: uninterpreted (sound
+                # for unsat; they only restrict the inputs)
+                r = upred(PREDS[k], kids[0].size())(kids[0], kids[1])
+                napp_pred[0] += 1
             elif name is not None and not z3.is_bv_value(kids[1]):
                 r = mk(name, kids[0], kids[1])
             elif name is not None:
@@ -107,7 +126,7 @@ def abstract(formulas):
                 ax.append(INST[name + "_su"](a, b, t, w))
             if w == 64 and name != "mul":
                 ax.append(INST[name + "_w"](a, b, t))
-    return out, ax, sum(len(v) for v in apps.values())
+    return out, ax, sum(len(v) for v in apps.values()) + napp_pred[0]
 
 
 WIDTHS = (8, 16, 24, 32, 40, 48, 56, 64)
